@@ -368,7 +368,69 @@ def suite_range(pid, tier, seed):
                 diffs=diffs[:5], failures=failures, traces=len(cases), stats=dict(cases=len(cases), requests=nreq, diffs=len(diffs)))
 
 
-SUITES = dict(seq=suite_seq, crash=suite_crash, fault=suite_fault, codec=suite_codec, range=suite_range)
+
+def two_segment_bases(rng, count):
+    """histories whose last rollover checkpoint fails (injected error at `create index.tmp`): at rest
+    the uncheckpointed records then span two segment files.  The fault index is read off the
+    model's own call trace."""
+    protos = []
+    for i in range(count):
+        n = rng.choice([2, 2, 3])
+        kt = "bytes"
+        keys = gen.key_pool(kt, rng, 3)
+        lines = [f"case dd{i}", f"cfg kt={kt} n={n} sync=1", "open"]
+        nops = n + rng.choice([1, 1, 2]) if n > 2 else n + 1
+        for j in range(nops):
+            k = gen.hexs(keys[j % len(keys)])
+            lines.append(f"put {k} {bytes([65 + j, 66 + i % 20]).hex()}" if rng.random() < 0.8 or j < 2 else f"remove {k}")
+        protos.append(lines)
+    probe = ["\n".join(l + ["obs", "close", "end"]) + "\n" for l in protos]
+    out = run.run_sharded(probe, "plain", "model")
+    M = run.by_case(out)
+    res = []
+    for l in protos:
+        name = l[0][5:]
+        tl = [x for x in M.get(name, []) if x.startswith("T ")]
+        idxs = [i for i, x in enumerate(tl) if x == "T create index.tmp"]
+        if not idxs:
+            continue
+        res.append("\n".join(l[:2] + [f"fault {idxs[-1]}"] + l[2:] + ["close", "end"]) + "\n")
+    return res
+
+
+# ------------------------------------------------------------------------------- damage (C10)
+def suite_damage(pid, tier, seed):
+    spec = PROPS[pid]
+    n = 10 if tier == "quick" else 300
+    rng = random.Random(seed * 1000003 + 47)
+    cases = [gen.damage_case(f"d{i}", rng, length=rng.choice([3, 4, 5, 6])) for i in range(n)]
+    cases += two_segment_bases(rng, max(4, n // 3))
+    real, model = both_sides(f"damage-{tier}-{seed}-{n}", cases, "damage-all")
+    R, M = run.by_case(real), run.by_case(model)
+    diffs, failures, distinct = [], [], set()
+    nd = 0
+    kinds = {"t": 0, "x": 0, "opened": 0, "err": 0}
+    for c in cases:
+        name = case_name(c)
+        rl, ml = R.get(name, []), M.get(name, [])
+        d = run.first_diff(filt(rl, {"damage"}), filt(ml, {"damage"}))
+        if d:
+            diffs.append(f"K3 damaged-log correspondence differs in case {name}: impl `{d[1][:160]}` vs model `{d[2][:160]}`")
+        for tag, where, msg in oracle.damage_oracle(c, rl):
+            if tag in spec["tags"]:
+                failures.append(mk_failure("damage", "damage-all", c, f"{name} {where}", tag, msg))
+        for l in rl:
+            if l.startswith("D "):
+                nd += 1
+                t = l.split()
+                kinds[t[2]] = kinds.get(t[2], 0) + 1
+                kinds["opened" if " -> opened" in l else "err"] += 1
+                distinct.add("dm:" + hashlib.sha1((name + l).encode()).hexdigest()[:16])
+    return dict(evaluations=nd, distinct=distinct, samples=[dict(suite="damage", case=cases[0].splitlines(), first_damages=[l for l in R.get(case_name(cases[0]), []) if l.startswith("D ")][:3])],
+                diffs=diffs[:5], failures=failures, traces=nd, stats=dict(cases=len(cases), damages=nd, kinds=kinds, diffs=len(diffs)))
+
+
+SUITES = dict(seq=suite_seq, crash=suite_crash, fault=suite_fault, codec=suite_codec, range=suite_range, damage=suite_damage)
 
 # ------------------------------------------------------------------------------- known findings
 KNOWN_CLASSES = {}
